@@ -119,7 +119,7 @@ def explore_parallel(it, harness, jobs, split_depth, deadline):
                 v.trace = trace
                 viol.append(v)
             for s in samples:
-                if len(it.samples) < 12:
+                if len(it.samples) < 40:
                     it.samples.append(s)
             it.signatures |= sigs
             if err:
@@ -149,14 +149,17 @@ def native_run(binary, fn, values, params, timeout=120):
     return dict(code=r.returncode, trace=lines, failed=failed, panicked=panicked, stderr=r.stderr[-600:])
 
 
-def conform(it, harness, fn, n, seed, binary, nvals, params, log):
-    """translator validation: the same value vectors through mirsym in concrete mode and the native harness"""
+def conform(it, harness, fn, n, seed, binary, nvals, params, log, witnesses=()):
+    """translator validation: the same value vectors through mirsym in concrete mode and the native harness.
+    Vectors: the solver's witnesses of explored paths (deep, non-trivial traces) followed by random ones."""
     rnd = random.Random(seed)
     agree = 0
     nontrivial = 0
     saved = it.stats
+    vectors = [list(w) for w in witnesses]
     for i in range(n):
-        vec = [rnd.choice([0, 1, 2, 3, rnd.randrange(8), rnd.randrange(256), rnd.randrange(1 << 16), rnd.randrange(1 << 64)]) for _ in range(nvals)]
+        vectors.append([rnd.choice([0, 1, 2, 3, rnd.randrange(8), rnd.randrange(256), rnd.randrange(1 << 16), rnd.randrange(1 << 64)]) for _ in range(nvals)])
+    for vec in vectors:
         it.concrete = vec
         it.stats = fresh_stats()
         try:
@@ -341,7 +344,9 @@ def run_unit(it, paths, prop, unit, tier, seed, log):
     n = unit.get('conform', {}).get(tier, 0)
     if res['status'] in ('pass',) and n:
         t1 = time.time()
-        agree, err = conform(it, harness, fn, n, seed, paths['replay_dev'], unit.get('nvals', 40), params, log)
+        witnesses = [[x for _, x in smp['witness']] for smp in it.samples if smp.get('witness')]
+        agree, err = conform(it, harness, fn, n, seed, paths['replay_dev'], unit.get('nvals', 40), params, log, witnesses)
+        res['conformance_witness_vectors'] = len(witnesses)
         res['conformance'] = agree
         res['conformance_nontrivial'] = getattr(it, 'conform_nontrivial', 0)
         res['conform_s'] = round(time.time() - t1, 2)
@@ -349,7 +354,7 @@ def run_unit(it, paths, prop, unit, tier, seed, log):
             res['status'] = 'inconclusive'
             res['notes'].append(err)
         else:
-            log('[%s] %s: conformance %d/%d vectors agree with the native build (%.1fs)' % (prop, fn, agree, n, res['conform_s']))
+            log('[%s] %s: conformance %d/%d vectors agree with the native build, %d of them path witnesses (%.1fs)' % (prop, fn, agree, n + len(witnesses), len(witnesses), res['conform_s']))
     res['wall_s'] = round(time.time() - t0, 2)
     return res
 
